@@ -101,6 +101,12 @@ def corpus():
     cs.append(_spline_case("spline", es, ns, [d], wts[:1], None, [[x + 1 / 128 for x in fe9], fn9], 0.5, 0.0))     # as many separate forces as data, weighted
     # non-uniform weights that are all tiny in absolute value (sigma ~ 1e5): still non-uniform
     cs.append(mk_trend(es, ns, d, [x * 1e-10 for x in wts[0]], 2, "corpus-trend-tiny-weights"))
+    # a TALL damped system (two interleaved surveys of different character, 41 000 rows): the column scales are those of ALL the rows
+    tall = [[float((i * 7) % 11 - 5) * (1.0 if i % 2 else 16.0), float((i * 5) % 13 - 6) * (8.0 if i % 2 else 1.0), 1.0] for i in range(41000)]
+    tc = mk_ls(tall, [0.25 * r_[0] - 0.5 * r_[1] + 3.0 + float((i * 3) % 17 - 8) / 4.0 for i, r_ in enumerate(tall)], None, 20000.0, "corpus-lstsq-tall-damped")
+    tc["op"] = mk_ls([[1.0, 0.0], [0.0, 1.0], [1.0, 1.0]], [1.0, 2.0, 4.0], None, 0.5, "")["op"]      # (exact arithmetic on 41 000 rows would take the model minutes: this one is
+    tc["oracle_only"] = True                                      #  judged by the independent solve alone)
+    cs.append(tc)
     # surveys in metres, degrees 3 and 4: columns from 1 to 1e13 (unit-variance columns are what the estimator is specified to work with)
     for deg_, scale_, nx_ in ((4, 2000.0, 6), (3, 150000.0, 5), (4, 12000.0, 7)):
         ge = [(-1.0 + 2.0 * i / (nx_ - 1) + (0.03125 if i % 2 else 0.0)) * scale_ for i in range(nx_)]
@@ -279,7 +285,7 @@ def _sig(w, d):
 
 
 def compare(case, io, mo):
-    if case.get("jacobian_error"):
+    if case.get("jacobian_error") or case.get("oracle_only"):
         return "ok"
     if C.is_err(io):
         return "diff:implementation failed: " + io[1]
